@@ -18,13 +18,14 @@ def sh(cmd, cwd=None, timeout=3000):
 def main():
     a = sys.argv[1:]
     mdir, sid = a[0], a[1]
-    props, wt, demo_path, demo_cmd, skip_confirm = [], None, None, None, False
+    props, wt, demo_path, demo_cmd, skip_confirm, confirm_only = [], None, None, None, False, False
     i = 2
     while i < len(a):
         if a[i] == "--wt": wt = a[i+1]; i += 2
         elif a[i] == "--demo-path": demo_path = a[i+1]; i += 2
         elif a[i] == "--demo-cmd": demo_cmd = a[i+1]; i += 2
         elif a[i] == "--skip-confirm": skip_confirm = True; i += 1
+        elif a[i] == "--confirm-only": confirm_only = True; i += 1   # step 1 only: /repo is not touched (can run in parallel)
         else: props.append(a[i]); i += 1
     patch = os.path.join(mdir, "patch.diff")
     meta = {"seeded_id": sid, "properties_checked": props, "when": time.strftime("%Y-%m-%d %H:%M:%S")}
@@ -49,13 +50,14 @@ def main():
             os.remove(os.path.join(wt, demo_path))
         sh("git checkout -- . && git clean -fdq packages", wt)
     # 2. our checks against the mutated /repo
-    rc, out = sh("git status --porcelain", "/repo")
-    assert out.strip() == "", "/repo is not clean: " + out
-    rc, out = sh(f"git apply {patch}", "/repo")
-    assert rc == 0, "patch does not apply to /repo: " + out
     results = {}
+    if not confirm_only:
+        rc, out = sh("git status --porcelain", "/repo")
+        assert out.strip() == "", "/repo is not clean: " + out
+        rc, out = sh(f"git apply {os.path.abspath(patch)}", "/repo")
+        assert rc == 0, "patch does not apply to /repo: " + out
     try:
-        for p in props:
+        for p in ([] if confirm_only else props):
             # the check rewrites evidence/<p>.json: keep the unchanged tree's evidence, not the mutant's
             ev = os.path.join(ROOT, "evidence", f"{p}.json")
             saved = open(ev).read() if os.path.exists(ev) else None
@@ -71,7 +73,7 @@ def main():
                 results[p]["first_disagreement"] = (rj.get("correspondence_disagreements") or [None])[0]
                 results[p]["broken"] = [b["what"] for b in rj.get("broken_obligations", [])]
     finally:
-        sh("git checkout -- .", "/repo")
+        if not confirm_only: sh("git checkout -- .", "/repo")
     meta["check_results"] = results
     meta["caught_by"] = [p for p, r in results.items() if r["exit"] != 0]
     # 3. store
